@@ -95,8 +95,15 @@ func runPathLock(rep *Report) {
 			op := r.Intn(8)
 			switch {
 			case op <= 2: // plain open
-				f, res := tryOpen(good)
-				trace = append(trace, "open=>"+res)
+				o := good
+				o.Readonly = r.Chance(35) // a read-only open locks the path like any other
+				f, res := tryOpen(o)
+				if o.Readonly {
+					rep.Markers["open-readonly"]++
+					trace = append(trace, "open(readonly)=>"+res)
+				} else {
+					trace = append(trace, "open=>"+res)
+				}
 				emit("pathop openOk => %s", class(res))
 				rep.Steps++
 				if held != nil {
